@@ -455,6 +455,40 @@ pub fn run_c15(out: &mut Out, tier: &str, _seed: u64) {
             for (size, nz) in run.releases.iter() { if *nz > 0 { out.hit("protected.released-unwiped.array", format!("{} bytes with {} non-zero", size, nz), rp.clone()); } }
         }
     }
+    // histories the generic sequences do not contain: an explicit zeroize() followed by new contents and a release, and a
+    // container released while a panic unwinds through its owner (secrets in the spare capacity after a shrink)
+    for len in [100usize, PAGE, PAGE + 1, 3 * PAGE + 5] {
+        for variant in 0..8 {
+            let run = { let mut fds = [0i32; 2]; unsafe { libc::pipe(fds.as_mut_ptr()); } let pid = unsafe { libc::fork() };
+                if pid == 0 { unsafe { libc::close(fds[0]); libc::mallopt(-6 /* M_PERTURB */, 0x11); libc::alarm(60); } let mut w = unsafe { <std::fs::File as std::os::unix::io::FromRawFd>::from_raw_fd(fds[1]) };
+                    std::panic::set_hook(Box::new(|_| {}));
+                    dryoc::protected::verif_set_release_observer(Some(release_observer));
+                    use zeroize::Zeroize;
+                    let secret = vec![SECRET; len];
+                    match variant {
+                        // explicit zeroize, then new contents, then growth beyond the capacity / drop
+                        0 => { let mut p = HeapBytes::from_slice_into_locked(&secret).unwrap().munlock().unwrap(); p.zeroize(); p.resize(len, 0); for x in p.as_mut_slice() { *x = 0x5a; } p.resize(4 * len + PAGE, 0x5a); drop(p); }
+                        1 => { let mut p = HeapBytes::from_slice_into_locked(&secret).unwrap(); p.zeroize(); p.resize(len, 0); for x in p.as_mut_slice() { *x = 0x5a; } p.resize(4 * len + PAGE, 0x5a); drop(p); }
+                        2 => { let mut hb = HeapBytes::from(&secret[..]); hb.zeroize(); hb.resize(len, 0x5a); hb.resize(4 * len + PAGE, 0x5a); drop(hb); }
+                        3 => { let mut p = HeapBytes::from_slice_into_locked(&secret).unwrap().munlock().unwrap(); p.zeroize(); p.resize(len, 0); for x in p.as_mut_slice() { *x = 0x5a; } drop(p); }
+                        // released while unwinding
+                        4 => { let _ = std::panic::catch_unwind(|| { let mut hb = HeapBytes::from(&secret[..]); hb.resize(len / 3, 0); if hb.len() < usize::MAX { panic!("unwind"); } drop(hb); }); }
+                        5 => { let _ = std::panic::catch_unwind(|| { let mut p = HeapBytes::from_slice_into_locked(&secret).unwrap(); p.resize(len / 3, 0); if p.len() < usize::MAX { panic!("unwind"); } drop(p); }); }
+                        6 => { let _ = std::panic::catch_unwind(|| { let mut p = HeapBytes::from_slice_into_locked(&secret).unwrap().munlock().unwrap(); p.resize(len / 3, 0); if p.len() < usize::MAX { panic!("unwind"); } drop(p); }); }
+                        _ => { let _ = std::panic::catch_unwind(|| { let p = HeapBytes::from_slice_into_readonly_locked(&secret).unwrap(); if p.len() < usize::MAX { panic!("unwind"); } drop(p); }); }
+                    }
+                    finish(&mut w); let _ = w.flush(); unsafe { libc::_exit(0); } }
+                unsafe { libc::close(fds[1]); } let mut r = unsafe { <std::fs::File as std::os::unix::io::FromRawFd>::from_raw_fd(fds[0]) }; let mut t = String::new(); let _ = r.read_to_string(&mut t); let mut st = 0; unsafe { libc::waitpid(pid, &mut st, 0); }
+                if libc::WIFSIGNALED(st) { out.hit("protected.sequence-crashes", format!("signal {} in release scenario {} (length {})", libc::WTERMSIG(st), variant, len), json!({"op":"protected.release-scenario","len":len,"variant":variant})); }
+                t };
+            out.search_evaluations += 1;
+            let names = ["unlocked: zeroize, refill, grow", "locked: zeroize, refill, grow", "HeapBytes: zeroize, refill, grow", "unlocked: zeroize, refill, drop", "HeapBytes: shrink, released while unwinding", "locked: shrink, released while unwinding", "unlocked: shrink, released while unwinding", "locked read-only: released while unwinding"];
+            let mut any = false;
+            for l in run.lines() { let f: Vec<&str> = l.split(' ').collect(); if f[0] == "R" { any = true; if f[2].parse::<i64>().unwrap_or(0) > 0 || f.get(3).and_then(|x| x.parse::<usize>().ok()).unwrap_or(0) >= 8 {
+                out.hit(&format!("protected.released-unwiped.{}", if variant < 4 { "after-explicit-zeroize" } else { "while-unwinding" }), format!("{} (length {}): {} bytes released with {} non-zero (and {} beyond the reported size)", names[variant], len, f[1], f[2], f.get(3).unwrap_or(&"0")), json!({"op":"protected.release-scenario","len":len,"variant":variant,"scenario":names[variant]})); } } }
+            if !any { out.hit("harness.no-release-observed", format!("scenario {} length {}", names[variant], len), json!({"variant":variant,"len":len})); }
+        }
+    }
     // plain HeapBytes (no Protected wrapper): grow / shrink / drop
     for len in [16usize, PAGE, PAGE + 1] {
         for variant in 0..3 {
